@@ -1,5 +1,6 @@
 import Operon.Lemmas.C15
 import Operon.Lemmas.C15Dfs
+import Operon.Lemmas.C15Life
 /-!
 # C15 — deadlock detection agrees with the real wait-for relation
 
@@ -288,6 +289,58 @@ theorem c15_phantom_deadlock_witness :
     refEdges (hrun p0 pOps) = [(2, 3, 1), (1, 2, 2)] ∧
     detectCycle (hrun p0 pOps).sys.edges = some [2, 1] := by decide
 
+/-! ### Phase cycling: `advance`, context flags assigned from outside, time passing
+
+`controller.advance(ctx)` takes an operation from phase to phase and round the cycle (M → G0) when the checkpoint
+of its phase passes; the flags the default checkpoints read (`resources_acquired`, `execution_complete`,
+`validation_passed`) and the watchdog exemption are public attributes of the context.  `lstep` (Model/CoordLife.lean)
+is what the protocol driver runs for `advance o` / `flag o f b` / `exempt o b` / `adv d`. -/
+
+/-- **Phase cycling changes nothing the detector or the victim rule reads.**  After any sequence of `advance`
+    calls (whatever the checkpoints answer, also round the cycle M → G0, any number of times), flag / exemption
+    assignments and clock ticks, for any operations: the locks and the recorded graph are the same, `detect_cycle`
+    answers the same, and `_select_deadlock_victim` picks the same operation out of any list of agents — for every
+    strategy; every listed operation still has the id, the priority and the creation time it had. -/
+theorem c15_phase_cycling_leaves_detector_and_victim_rule_alone (s : Sys) (ops : List LOp) (agents : List Nat) :
+    (lrun s ops).locks = s.locks ∧ (lrun s ops).edges = s.edges ∧
+    detectCycle (lrun s ops).edges = detectCycle s.edges ∧
+    selectVictim (lrun s ops) agents = selectVictim s agents ∧
+    ∀ o, ((lrun s ops).ctx? o).map victimKey = (s.ctx? o).map victimKey := by
+  have h := lifeSame_lrun ops s
+  exact ⟨h.locks, h.edges, by rw [h.edges], selectVictim_lifeSame h agents, h.key⟩
+
+/-- **"Oldest" means started first, "lowest priority" means the priority given at the start.**  Operation `o` is
+    started with priority `p` when the clock shows `t`.  Whatever follows — controller calls by anybody (start of
+    other ids, acquire, release, complete / abort / kill), `advance` round the cycle any number of times, flag and
+    exemption assignments, time passing — as long as `o` is not started again: whenever `o` is still listed, its
+    context carries creation time `t` and priority `p`, i.e. exactly the keys `c15_victim_is_min_priority_or_oldest`
+    compares.  (Priority inheritance — `check_and_boost`, part of `run_maintenance` — does raise priorities; it is
+    not one of these calls, and it leaves the creation time alone.) -/
+theorem c15_start_time_and_priority_are_set_by_start_only (h : HSt) (o : Nat) (p : Int) (ops : List XOp)
+    (hno : ∀ p', XOp.ctl (.start o p') ∉ ops) (c : Ctx)
+    (hc : (xrun (xstep h (.ctl (.start o p))) ops).sys.ctx? o = some c) :
+    c.id = o ∧ c.prio = p ∧ c.created = h.sys.now := by
+  have h1 : ((xstep h (.ctl (.start o p))).sys.ctx? o).map victimKey = some (o, p, h.sys.now) := start_key h.sys o p
+  rcases xrun_keys ops (xstep h (.ctl (.start o p))) o hno with h2 | h2
+  · rw [h2] at hc; cases hc
+  · rw [hc, h1] at h2
+    simp only [Option.map_some, Option.some.injEq, victimKey, Prod.mk.injEq] at h2
+    exact h2
+
+/-- **The history theorems hold with phase cycling interleaved.**  Along every history that mixes controller calls
+    (start of ids that are not active / acquire / release / complete / abort / kill) with `advance`, flag and
+    exemption assignments and clock ticks: the tracking invariant and "recorded edges join listed operations" hold
+    at the end (hence at every point), and — when no trigger event of the open finding occurs among the controller
+    calls (a life-cycle call is never one) — the recorded graph equals the reference wait-for graph. -/
+theorem c15_histories_with_phase_cycling (h : HSt) (ops : List XOp) :
+    ((∀ op, Kinv h.sys op) → EdgesLive h.sys → XFreshStarts h ops →
+      (∀ op, Kinv (xrun h ops).sys op) ∧ EdgesLive (xrun h ops).sys) ∧
+    (Good h → XTrigFree h ops →
+      ∀ w b r, HasEdge (xrun h ops).sys.edges w b r ↔ (w, b, r) ∈ refEdges (xrun h ops)) := by
+  refine ⟨fun hk hl hf => kinv_edgesLive_xrun ops hk hl hf, fun hg ht w b r => ?_⟩
+  rw [mem_refEdges]
+  exact (good_xrun ops hg ht).exact w b r
+
 /-! ### Non-vacuity -/
 
 private def r0 : HSt := { sys := { (({} : Sys).register 1 false).register 2 false with strategy := .oldest } }
@@ -302,6 +355,23 @@ example : TrigFree r0 rOps ∧ RefCycle (hrun r0 rOps) [1, 2] ∧ detectCycle (h
   refine ⟨?_, ⟨1, rfl, ⟨⟨2, by decide⟩, ⟨1, by decide⟩, trivial⟩⟩, by decide, by decide, by decide, by decide⟩
   simp only [TrigFree, rOps]
   decide
+
+/-- phase cycling before a deadlock: op1 is started first, goes once round the whole cycle (G0 → … → M → G0) two
+    ticks later, then the ring forms; the history is trigger-free, the cycle is reported, the "oldest" victim is
+    op1 (started at 0, op2 at 2), and op1 is back in G0 with its creation time 0 -/
+private def cOps : List XOp :=
+  [.ctl (.start 1 2), .life (.tick 2), .ctl (.start 2 1), .life (.flag 1 .resAcq true), .life (.flag 1 .execDone true),
+   .life (.flag 1 .valPassed true), .life (.advance 1 .base), .life (.advance 1 .base), .life (.advance 1 .base),
+   .life (.advance 1 .base), .life (.tick 1), .life (.advance 1 .base), .ctl (.acq 1 1), .ctl (.acq 2 2),
+   .ctl (.acq 1 2), .ctl (.acq 2 1)]
+
+example : XTrigFree r0 cOps ∧ XFreshStarts r0 cOps ∧ detectCycle (xrun r0 cOps).sys.edges = some [1, 2] ∧
+    (wdExecute (xrun r0 cOps).sys).2 = [(1, Reason.deadlock)] ∧
+    ((xrun r0 cOps).sys.ctx? 1).map (fun c => (c.phase, c.created, c.phaseAt)) = some (.g0, 0, 3) ∧
+    ((xrun r0 cOps).sys.ctx? 2).map (·.created) = some 2 := by
+  refine ⟨?_, ?_, by decide, by decide, by decide, by decide⟩
+  · simp only [XTrigFree, cOps]; decide
+  · simp only [XFreshStarts, cOps]; decide
 
 /-- the hypotheses of `c15_exact_partial` are satisfiable: `r0` is `Good`, `rOps` is trigger-free (above) -/
 example : Good r0 := by
